@@ -33,6 +33,15 @@ theorem Obj.run_tokenSet (cx : NumCtx) (o : Obj) (evs : List Event) : (o.run cx 
     show (Obj.run cx (o.apply cx e).2 es).row.tokenSet = _
     rw [ih, Obj.apply_tokenSet]
 
+/-- `broker.allow_negative_balance` never changes -/
+theorem Obj.run_allowNeg (cx : NumCtx) (o : Obj) (evs : List Event) : (o.run cx evs).allowNeg = o.allowNeg := by
+  induction evs generalizing o with
+  | nil => rfl
+  | cons e es ih =>
+    show (Obj.run cx (o.apply cx e).2 es).allowNeg = _
+    rw [ih]
+    cases e <;> simp [Obj.apply, Obj.setStatus]
+
 /-- calls inside a bar leave the row alone -/
 theorem Obj.run_inBar_row (cx : NumCtx) (o : Obj) (evs : List Event) (h : ∀ e ∈ evs, e.inBar = true) :
     (o.run cx evs).row = o.row := by
@@ -86,16 +95,17 @@ open GmxV1 in
 theorem C17_v1_op_depends_only_on_row_holding_args (cx : NumCtx) (o : Obj) (history : List Event) (row : Env) (calls : List Event)
     (h : ∀ e ∈ calls, e.inBar = true) (p : Op) :
     let before := o.run cx (history ++ [.setStatus row] ++ calls)
-    let r := step cx { row with tokenSet := o.row.tokenSet } before.st p
+    let r := step cx { row with tokenSet := o.row.tokenSet } before.st p o.allowNeg
     (before.apply cx (.op p)).1 = .value r.1 ∧ (before.apply cx (.op p)).2.st = r.2 ∧
       (before.apply cx (.op p)).2.row = { row with tokenSet := o.row.tokenSet } := by
   intro before r
   have hrow : before.row = { row with tokenSet := o.row.tokenSet } := Obj.row_after cx o history row calls h
+  have hneg : before.allowNeg = o.allowNeg := Obj.run_allowNeg cx o _
   refine ⟨?_, ?_, ?_⟩
-  · show Answer.value (step cx before.row before.st p).1 = _
-    rw [hrow]
-  · show (step cx before.row before.st p).2 = _
-    rw [hrow]
+  · show Answer.value (step cx before.row before.st p before.allowNeg).1 = _
+    rw [hrow, hneg]
+  · show (step cx before.row before.st p before.allowNeg).2 = _
+    rw [hrow, hneg]
   · show before.row = _
     exact hrow
 
@@ -113,14 +123,15 @@ theorem Obj.run_append (ops : Ops α) (cx : NumCtx) (o : Obj α) (a b : List (Ev
 
 /-- configuration and token keys never change -/
 theorem Obj.run_static (ops : Ops α) (cx : NumCtx) (o : Obj α) (evs : List (Event α)) :
-    (o.run ops cx evs).cfg = o.cfg ∧ (o.run ops cx evs).longKey = o.longKey ∧ (o.run ops cx evs).shortKey = o.shortKey := by
+    (o.run ops cx evs).cfg = o.cfg ∧ (o.run ops cx evs).longKey = o.longKey ∧ (o.run ops cx evs).shortKey = o.shortKey ∧
+      (o.run ops cx evs).allowNeg = o.allowNeg := by
   induction evs generalizing o with
-  | nil => exact ⟨rfl, rfl, rfl⟩
+  | nil => exact ⟨rfl, rfl, rfl, rfl⟩
   | cons e es ih =>
     have := ih (o.apply ops cx e).2
     show (Obj.run ops cx (o.apply ops cx e).2 es).cfg = _ ∧ (Obj.run ops cx (o.apply ops cx e).2 es).longKey = _ ∧
-      (Obj.run ops cx (o.apply ops cx e).2 es).shortKey = _
-    rw [this.1, this.2.1, this.2.2]
+      (Obj.run ops cx (o.apply ops cx e).2 es).shortKey = _ ∧ (Obj.run ops cx (o.apply ops cx e).2 es).allowNeg = _
+    rw [this.1, this.2.1, this.2.2.1, this.2.2.2]
     cases e <;> simp [Obj.apply]
 
 theorem Obj.run_inBar_row (ops : Ops α) (cx : NumCtx) (o : Obj α) (evs : List (Event α)) (h : ∀ e ∈ evs, e.inBar = true) :
@@ -156,16 +167,16 @@ open GmxV2
 theorem C17_v2_mint_depends_only_on_row_holding_args (ops : Ops α) (cx : NumCtx) (o : Obj α) (history : List (Event α))
     (row : Pool α) (calls : List (Event α)) (h : ∀ e ∈ calls, e.inBar = true) (long short : α) :
     let before := o.run ops cx (history ++ [.setStatus row] ++ calls)
-    let r := deposit ops cx o.cfg row o.longKey o.shortKey before.st long short
+    let r := deposit ops cx o.cfg row o.longKey o.shortKey before.st long short o.allowNeg
     (before.apply ops cx (.deposit long short)).1 = .deposit r.1 ∧ (before.apply ops cx (.deposit long short)).2.st = r.2 := by
   intro before r
   have hrow : before.row = row := Obj.row_after ops cx o history row calls h
-  obtain ⟨hc, hl, hs⟩ := Obj.run_static ops cx o (history ++ [.setStatus row] ++ calls)
+  obtain ⟨hc, hl, hs, hn⟩ := Obj.run_static ops cx o (history ++ [.setStatus row] ++ calls)
   refine ⟨?_, ?_⟩
-  · show Answer.deposit (deposit ops cx before.cfg before.row before.longKey before.shortKey before.st long short).1 = _
-    rw [hrow, hc, hl, hs]
-  · show (deposit ops cx before.cfg before.row before.longKey before.shortKey before.st long short).2 = _
-    rw [hrow, hc, hl, hs]
+  · show Answer.deposit (deposit ops cx before.cfg before.row before.longKey before.shortKey before.st long short before.allowNeg).1 = _
+    rw [hrow, hc, hl, hs, hn]
+  · show (deposit ops cx before.cfg before.row before.longKey before.shortKey before.st long short before.allowNeg).2 = _
+    rw [hrow, hc, hl, hs, hn]
 
 /-- the same for a withdrawal -/
 theorem C17_v2_redeem_depends_only_on_row_holding_args (ops : Ops α) (cx : NumCtx) (o : Obj α) (history : List (Event α))
@@ -175,13 +186,144 @@ theorem C17_v2_redeem_depends_only_on_row_holding_args (ops : Ops α) (cx : NumC
     (before.apply ops cx (.withdraw amount)).1 = .withdraw r.1 ∧ (before.apply ops cx (.withdraw amount)).2.st = r.2 := by
   intro before r
   have hrow : before.row = row := Obj.row_after ops cx o history row calls h
-  obtain ⟨hc, hl, hs⟩ := Obj.run_static ops cx o (history ++ [.setStatus row] ++ calls)
+  obtain ⟨hc, hl, hs, _⟩ := Obj.run_static ops cx o (history ++ [.setStatus row] ++ calls)
   refine ⟨?_, ?_⟩
   · show Answer.withdraw (withdraw ops cx before.cfg before.row before.longKey before.shortKey before.st amount).1 = _
     rw [hrow, hc, hl, hs]
   · show (withdraw ops cx before.cfg before.row before.longKey before.shortKey before.st amount).2 = _
     rw [hrow, hc, hl, hs]
 end
+
+/-! ### rewards over whole runs: pro rata to the share of supply, bar after bar, for arbitrary histories -/
+
+namespace GmxV1
+
+/-- the property's accrual rule read off a history: an `update()` on a row with GLP outstanding adds
+    `interval × 60 × held / supply` — with the row and the holding the object has AT THAT MOMENT —, every other event adds
+    nothing.  (`update()` on a row without supply raises and adds nothing.) -/
+def accrued (cx : NumCtx) : Obj → List Event → Rat
+  | _, [] => 0
+  | o, e :: es =>
+    (match e with
+     | .op .update => if o.row.glpSupply = 0 then 0 else o.row.interval * 60 * (o.st.glp / o.row.glpSupply)
+     | _ => 0) + accrued cx (o.apply cx e).2 es
+
+theorem accrued_cons (cx : NumCtx) (o : Obj) (e : Event) (es : List Event) :
+    accrued cx o (e :: es)
+      = (match e with
+         | .op .update => if o.row.glpSupply = 0 then 0 else o.row.interval * 60 * (o.st.glp / o.row.glpSupply)
+         | _ => 0) + accrued cx (o.apply cx e).2 es := rfl
+
+theorem buyGlp_reward {cx : NumCtx} {env : Env} {s : State} {t : String} {d : Nat} {a : Rat} {an : Bool} :
+    (buyGlp cx env s t d a an).2.reward = s.reward := by
+  unfold buyGlp
+  split
+  · rfl
+  · split
+    · rfl
+    · split <;> rfl
+
+theorem sellGlp_reward {cx : NumCtx} {env : Env} {s : State} {t : String} {d : Nat} {g : Rat} :
+    (sellGlp cx env s t d g).2.reward = s.reward := by
+  unfold sellGlp
+  simp only []
+  generalize (if g = 0 then s.glp else g) = g'
+  split
+  · rfl
+  · split
+    · rfl
+    · split <;> rfl
+
+theorem update_ok_supply {env : Env} {s s' : State} {r : Rat} (h : update NumCtx.exact env s = (.ok r, s')) :
+    env.glpSupply ≠ 0 := by
+  unfold update at h
+  simp only [] at h
+  split at h
+  · cases h
+  · rename_i q hq; exact (Gmx.ddiv_ok hq).1
+
+theorem update_error_state {cx : NumCtx} {env : Env} {s s' : State} {e : Err} (h : update cx env s = (.error e, s')) : s' = s := by
+  unfold update at h
+  simp only [] at h
+  split at h
+  · cases h; rfl
+  · cases h
+
+theorem update_error_supply {env : Env} {s s' : State} {e : Err} (h : update NumCtx.exact env s = (.error e, s')) :
+    env.glpSupply = 0 := by
+  by_contra hne
+  unfold update at h
+  simp only [ddiv, if_neg hne] at h
+  cases h
+
+theorem update_glp {cx : NumCtx} (env : Env) (s : State) : (update cx env s).2.glp = s.glp := by
+  unfold update
+  simp only []
+  split <;> rfl
+
+theorem update_reward_exact (env : Env) (s : State) :
+    (update NumCtx.exact env s).2.reward
+      = s.reward + (if env.glpSupply = 0 then 0 else env.interval * 60 * (s.glp / env.glpSupply)) := by
+  cases h : update NumCtx.exact env s with
+  | mk res s' =>
+    cases res with
+    | ok r =>
+      obtain ⟨hr, hs, -⟩ := C17_v1_reward_pro_rata h
+      simp only [hs, hr, if_neg (update_ok_supply h)]
+    | error e =>
+      simp only [update_error_state h, update_error_supply h, if_true, add_zero]
+
+end GmxV1
+
+open GmxV1 in
+/-- **whole-run accrual (v1)**: for EVERY history of bars (`set_market_status`), buys, sells, fee reads and bar-end
+    `update()` calls on one live market object — any rows, any order, any number of bars —, the pending reward at the end is
+    the reward at the start plus, for each `update()`, `interval × 60 × held / supply` taken with the row and the holding of
+    that moment: pro rata to the holder's share of the GLP supply in every bar, and nothing else (no buy, sell, fee read,
+    row change or rejected call) ever touches it.  Exact arithmetic; the literal 60 is the generated `gmxRewardSeconds`. -/
+theorem C17_v1_reward_accrues_pro_rata_over_runs (o : Obj) (evs : List Event) :
+    (o.run NumCtx.exact evs).st.reward = o.st.reward + accrued NumCtx.exact o evs ∧ Gen.gmxRewardSeconds = 60 := by
+  refine ⟨?_, rfl⟩
+  induction evs generalizing o with
+  | nil => simp [Obj.run, accrued]
+  | cons e es ih =>
+    show (Obj.run NumCtx.exact (o.apply NumCtx.exact e).2 es).st.reward = _
+    rw [ih (o.apply NumCtx.exact e).2, accrued_cons]
+    have hstep : (o.apply NumCtx.exact e).2.st.reward
+        = o.st.reward + (match e with
+            | .op .update => if o.row.glpSupply = 0 then 0 else o.row.interval * 60 * (o.st.glp / o.row.glpSupply)
+            | _ => 0) := by
+      cases e with
+      | setStatus r => simp [Obj.apply, Obj.setStatus]
+      | fee t u i => simp [Obj.apply]
+      | op p =>
+        cases p with
+        | buy t d a => simp only [Obj.apply, step]; rw [buyGlp_reward]; simp
+        | sell t d g => simp only [Obj.apply, step]; rw [sellGlp_reward]; simp
+        | update => simp only [Obj.apply, step]; exact update_reward_exact o.row o.st
+    rw [hstep, add_assoc]
+
+open GmxV1 in
+/-- a holder that never trades: with a constant holding `g` over bars whose rows have GLP outstanding, `n` bar-end updates
+    add `g × Σ interval_k × 60 / supply_k` — the reward is linear in the share held. -/
+theorem C17_v1_reward_constant_holding (o : Obj) (rows : List Env) (hs : ∀ r ∈ rows, r.glpSupply ≠ 0) :
+    (o.run NumCtx.exact (rows.flatMap (fun r => [.setStatus r, .op .update]))).st.reward
+      = o.st.reward + o.st.glp * (rows.map (fun r => r.interval * 60 / r.glpSupply)).sum := by
+  induction rows generalizing o with
+  | nil => simp [Obj.run]
+  | cons r rs ih =>
+    have hr : r.glpSupply ≠ 0 := hs r (List.mem_cons_self ..)
+    simp only [List.flatMap_cons, List.map_cons, List.sum_cons]
+    rw [Obj.run_append, ih _ (fun r' m => hs r' (List.mem_cons_of_mem _ m))]
+    have h1 : (o.run NumCtx.exact [.setStatus r, .op .update]).st.reward
+        = o.st.reward + r.interval * 60 * (o.st.glp / r.glpSupply) := by
+      have := (C17_v1_reward_accrues_pro_rata_over_runs o [.setStatus r, .op .update]).1
+      rw [this]
+      simp [accrued, Obj.apply, Obj.setStatus, hr]
+    have h2 : (o.run NumCtx.exact [.setStatus r, .op .update]).st.glp = o.st.glp := by
+      show (update NumCtx.exact _ o.st).2.glp = _
+      exact update_glp _ _
+    rw [h1, h2]; field_simp; ring
 
 /-! ### non-vacuity: a history in which the row really changes and the answers change with it -/
 
@@ -207,5 +349,11 @@ example : (((Gmx.demoObj.run NumCtx.exact [.op (.buy "weth" 18 1), .fee "weth" (
 /-- and the GLP bought in bar 1 is sold in bar 2 at bar 2's row -/
 example : ((Gmx.demoObj.run NumCtx.exact [.op (.buy "weth" 18 1), .setStatus Gmx.demoEnv2]).apply NumCtx.exact (.op (.sell "weth" 18 0))).2.st.wallet
     = [("WETH", 532033049 / 175000000)] := by decide +kernel
+
+/-- non-vacuity: two bars with different rows, a buy in the first: the accrual of each bar uses that bar's row and the
+    holding of that moment (0 before the buy would have been wrong: the buy precedes the update) -/
+example : ((Gmx.demoObj.run NumCtx.exact [.op (.buy "weth" 18 1), .op .update, .setStatus Gmx.demoEnv2, .op .update]).st.reward
+    = 0 + (10 ^ 15 * 60 * ((39948 / 25) / (8 * 10 ^ 24)) + 10 ^ 15 * 60 * ((39948 / 25) / (8 * 10 ^ 24)))) := by
+  decide +kernel
 
 end Demeter
